@@ -212,7 +212,16 @@ type ttxUnitSpec struct {
 
 // ttxGenStream builds a whole transport stream from a random page schedule
 func ttxGenStream(r *fw.Rand) ttxStream {
+	// one stream in four carries its tables exactly once and leaves the PID to be found: the demultiplexer then
+	// hands the PMT over only when the stream ends, and the reader starts again from the beginning
+	return ttxGenStreamMode(r, r.P(1, 4))
+}
+
+func ttxGenStreamMode(r *fw.Rand, tablesOnce bool) ttxStream {
 	cnt := map[string]int64{}
+	if tablesOnce {
+		cnt["streams_with_tables_sent_exactly_once_and_pid_to_be_found"]++
+	}
 	mag, page := r.Range(1, 8), r.Intn(100)
 	serial := r.Bool()
 	// whether the reader will be told the page, and if so whether the page carries the subtitle flag at all (the
@@ -439,7 +448,7 @@ func ttxGenStream(r *fw.Rand) ttxStream {
 	lateTables := r.P(1, 5)
 	if !lateTables {
 		tables()
-		if r.Bool() {
+		if r.Bool() && !tablesOnce {
 			tables() // (a reader that cannot seek must not depend on the tables being repeated)
 		}
 	} else {
@@ -488,7 +497,7 @@ func ttxGenStream(r *fw.Rand) ttxStream {
 			w.payloadUnit(p, pesPacket(0xe0, pts+1, false, vid), false)
 			cnt["other_pid_pes"]++
 		}
-		if r.P(1, 5) {
+		if r.P(1, 5) && !tablesOnce {
 			tables()
 		}
 		pts += int64(r.Range(1, 90000*4))
@@ -538,7 +547,7 @@ func ttxGenStream(r *fw.Rand) ttxStream {
 		exp = append(exp, c)
 	}
 	s := ttxStream{data: w.buf.Bytes(), expected: exp, counters: cnt, mag: mag, page: page}
-	pidGiven := r.Bool()
+	pidGiven := r.Bool() && !tablesOnce
 	if pageGiven {
 		s.opts.Page = mag*100 + page
 	}
